@@ -201,3 +201,34 @@ def report(ctx, rule):
         tr, want = bad[0]
         ctx.fail(rule, f, f.node, "rx cache model: after the history [%s] the read should give %s: the expression does not evaluate to the plain result on the current input" % (
             "; ".join(tr), want), key=f.qualname + "::rx-cache-model", input=" ; ".join(tr))
+
+
+def dependency_model(ctx, rule):
+    """rx._compute_params interpreted abstractly: the parameters an expression node is invalidated by are those of the
+    nodes before it plus those of its operation's function, positional arguments AND keyword arguments."""
+    f = ctx.hier.resolve(RX, "_compute_params")
+    dr, da, dk, dfn = Obj("param_of_the_root"), Obj("param_in_a_positional_argument"), Obj("param_in_a_keyword_argument"), Obj("param_of_the_function")
+    A1, K1, F = Obj("positional_argument"), Obj("keyword_argument"), Obj("operation_function")
+    root = Obj("root_node", __cls__=RX, _params=[dr], _prev=None)
+    node = Obj("node", __cls__=RX, _fn_params=[], _trigger=None, _prev=root, _operation={"fn": F, "args": (A1,), "kwargs": {"scale": K1}, "reverse": False})
+
+    def hook(fn, args, kwargs):
+        if fn == "resolve_ref" and args:
+            return {id(A1): [da], id(K1): [dk], id(F): [dfn]}.get(id(args[0]), [])
+        return NotImplemented
+    it = Interp(ctx.hier, dyn=RX, inline=lambda m: True, call_hook=hook, strict_self_calls=True)
+    try:
+        outs = it.run_all(f, {f.params[0]: node})
+    except Unsupported as e:
+        raise AnalysisError("absint cannot interpret rx._compute_params: %s -- %s cannot decide" % (e, rule))
+    ctx.abstract_cases += 1
+    if len(outs) != 1 or outs[0].imprecise or outs[0].kind != "return" or not isinstance(outs[0].value, list):
+        raise AnalysisError("absint imprecise on rx._compute_params -- %s cannot decide" % rule)
+    got = outs[0].value
+    missing = [w.name for w in (dr, da, dk, dfn) if not any(x is w for x in got)]
+    if missing:
+        ctx.fail(rule, f, f.node, "rx._compute_params of a node with operation f(prev, <positional>, scale=<keyword>) does not list %s: no invalidation watcher is installed for it, "
+                                  "so after a first read an update of that input leaves the expression at its cached value and .rx.watch callbacks never fire" % ", ".join(missing),
+                 key=f.qualname + "::dependency-model", input="x.rx.pipe(f, scale=p.param.scale); read; p.scale = 3; read -> stale")
+    else:
+        ctx.ok(rule, f, f.node, "the dependency list holds the parameters of the previous nodes, of the function, of the positional and of the keyword arguments")
